@@ -214,19 +214,22 @@ def run_seq(seed, nsteps):
 def struct_case(c):
   """c: {'fields': [[name, 'data'|'static'], ...], 'base': 'dataclass'|'pytreenode', 'values': [...]}"""
   import dataclasses
-  fields = c['fields']
+  fields = [f[:2] for f in c['fields']]
+  metas = [(f[2] if len(f) > 2 else None) for f in c['fields']]
+  shared = {'units': 'm'}
   ns = {'__annotations__': {}}
-  for name, kind in fields:
+  for (name, kind), meta in zip(fields, metas):
     ns['__annotations__'][name] = object
-    if kind == 'static':
-      ns[name] = struct.field(pytree_node=False)
+    md = shared if meta == 'shared' else ({'own': name} if meta == 'own' else None)
+    if kind == 'static' or md is not None:
+      ns[name] = struct.field(pytree_node=(kind == 'data'), metadata=md) if md is not None else struct.field(pytree_node=False)
   if c['base'] == 'pytreenode':
     cls = type('PN', (struct.PyTreeNode,), ns)
   else:
     cls = struct.dataclass(type('DC', (), ns))
   vals = {name: (jnp.asarray(float(v)) if kind == 'data' else v) for (name, kind), v in zip(fields, c['values'])}
   x = cls(**vals)
-  out = {}
+  out = {'user_metadata_untouched': shared == {'units': 'm'}}
   leaves, td = jax.tree_util.tree_flatten(x)
   out['leaves'] = [float(l) for l in leaves]
   y = jax.tree_util.tree_unflatten(td, leaves)
@@ -279,10 +282,31 @@ def struct_case(c):
   return out
 
 
+class SeqTimeout(Exception):
+  pass
+
+
+def run_seq_guarded(seed, nsteps):
+  """a sequence that does not finish (runaway copying / recursion under a broken tree) is itself a finding"""
+  import signal
+
+  def on_alarm(*_):
+    raise SeqTimeout()
+  signal.signal(signal.SIGALRM, on_alarm)
+  signal.alarm(20)
+  try:
+    return run_seq(seed, nsteps)
+  except (SeqTimeout, RecursionError, MemoryError) as e:
+    return {'seed': seed, 'ops': [], 'mid': [], 'mid_n': 0, 'final': [],
+            'problems': [{'what': 'an operation sequence on FrozenDicts did not terminate normally (%s): a FrozenDict became part of a cycle or kept growing' % type(e).__name__}]}
+  finally:
+    signal.alarm(0)
+
+
 def main(payload):
   res = {}
   if 'seqs' in payload:
-    res['seqs'] = [run_seq(s, payload['nsteps']) for s in payload['seqs']]
+    res['seqs'] = [run_seq_guarded(s, payload['nsteps']) for s in payload['seqs']]
   if 'structs' in payload:
     res['structs'] = []
     for c in payload['structs']:
